@@ -743,3 +743,300 @@ Proof.
     rewrite firstn_app_len. rewrite <- !app_assoc. cbn [app].
     rewrite (join_relations_split a' z b). reflexivity.
 Qed.
+
+(* ------------------------------------------------------------------ the text of a constructor-built field *)
+Lemma text_crel r : text (crel_tree r) = render_rel r.
+Proof.
+  destruct r as [n [q|] [[[] ver]|] ar pr]; unfold crel_tree, render_rel; rewrite text_node;
+    cbn [rr_name rr_qual rr_ver texts flat_map text app vc_text vc_toks version_node archqual_node t_space];
+    rewrite ?app_nil_r, <- ?app_assoc; reflexivity.
+Qed.
+
+Lemma texts_sepR rs : texts (sepR rs) = flat_map (fun r => [32; 124; 32]%N ++ text r) rs.
+Proof. unfold sepR, texts. induction rs as [|r rs IH]; cbn; [reflexivity|]. now rewrite IH. Qed.
+Lemma texts_sepE es : texts (sepE es) = flat_map (fun e => [44; 32]%N ++ text e) es.
+Proof. unfold sepE, texts. induction es as [|e es IH]; cbn; [reflexivity|]. now rewrite IH. Qed.
+
+Lemma join_with_cons sep x l :
+  join_with sep (x :: l) = x ++ flat_map (fun y => sep ++ y) l.
+Proof.
+  revert x; induction l as [|y r IH]; intros x; [cbn; now rewrite app_nil_r|].
+  change (join_with sep (x :: y :: r)) with (x ++ sep ++ join_with sep (y :: r)).
+  rewrite IH. cbn [flat_map]. now rewrite <- app_assoc.
+Qed.
+
+Lemma text_centry e : text (centry_tree e) = render_entry e.
+Proof.
+  unfold centry_tree, entry_from_relations, render_entry. rewrite text_node.
+  destruct e as [|r e]; [reflexivity|]. cbn [map]. rewrite join_relations_0, join_with_cons.
+  rewrite texts_cons, texts_sepR, text_crel. f_equal.
+  induction e as [|x e IH]; cbn [map flat_map]; [reflexivity|]. now rewrite IH, text_crel.
+Qed.
+Lemma text_cfield f : text (cfield_tree f) = render_field f.
+Proof.
+  unfold cfield_tree, relations_from_entries, render_field. rewrite text_node.
+  destruct f as [|e f]; [reflexivity|]. cbn [map]. rewrite join_entries_0, join_with_cons.
+  rewrite texts_cons, texts_sepE, text_centry. f_equal.
+  induction f as [|x f IH]; cbn [map flat_map]; [reflexivity|]. now rewrite IH, text_centry.
+Qed.
+
+(* ------------------------------------------------------------------ bounds of the scans *)
+Lemma ws_prefix_len_le l : ws_prefix_len l <= length l.
+Proof. induction l as [|c r IH]; cbn; [lia|]. destruct (ws_elem c); lia. Qed.
+Lemma skipn_length_le {A} n (l : list A) : length (skipn n l) = length l - n.
+Proof. apply skipn_length. Qed.
+Lemma entry_remove_scan_next_le post k rc : entry_remove_scan_next post = Ok (k, rc) -> k <= length post.
+Proof.
+  unfold entry_remove_scan_next. pose proof (ws_prefix_len_le post) as H.
+  destruct (skipn (ws_prefix_len post) post) as [|c r] eqn:E.
+  - intros [= <- <-]. exact H.
+  - destruct (kind_is COMMA c); [|discriminate]. intros [= <- <-].
+    assert (length (skipn (ws_prefix_len post) post) = S (length r)) by now rewrite E.
+    rewrite skipn_length in H0. lia.
+Qed.
+Lemma entry_remove_scan_prev_le rc pre : entry_remove_scan_prev rc pre <= length pre.
+Proof.
+  unfold entry_remove_scan_prev. pose proof (ws_prefix_len_le (rev pre)) as H. rewrite rev_length in H.
+  destruct (skipn (ws_prefix_len (rev pre)) (rev pre)) as [|c r] eqn:E; [exact H|].
+  assert (length (skipn (ws_prefix_len (rev pre)) (rev pre)) = S (length r)) by now rewrite E.
+  rewrite skipn_length, rev_length in H0. destruct (negb rc && kind_is COMMA c); lia.
+Qed.
+
+
+Lemma relation_remove_scan_next_le post k : relation_remove_scan_next post = Ok k -> k <= length post.
+Proof.
+  unfold relation_remove_scan_next. pose proof (ws_prefix_len_le post) as H.
+  destruct (skipn (ws_prefix_len post) post) as [|c r] eqn:E.
+  - intros [= <-]. exact H.
+  - destruct (kind_is PIPE c); [|discriminate]. intros [= <-].
+    assert (length (skipn (ws_prefix_len post) post) = S (length r)) by now rewrite E.
+    rewrite skipn_length in H0. pose proof (ws_prefix_len_le r). lia.
+Qed.
+Lemma relation_remove_scan_prev_le pre : relation_remove_scan_prev pre <= length pre.
+Proof.
+  unfold relation_remove_scan_prev. pose proof (ws_prefix_len_le (rev pre)) as H. rewrite rev_length in H.
+  destruct (skipn (ws_prefix_len (rev pre)) (rev pre)) as [|c r] eqn:E; [exact H|].
+  assert (length (skipn (ws_prefix_len (rev pre)) (rev pre)) = S (length r)) by now rewrite E.
+  rewrite skipn_length, rev_length in H0. pose proof (ws_prefix_len_le r).
+  destruct (kind_is PIPE c); lia.
+Qed.
+
+
+(* ------------------------------------------------------------------ frame: what the list surgery touches, on ANY children list *)
+Definition sep_tok (c : rtree) : Prop := ws_elem c = true \/ kind_is COMMA c = true.
+Definition alt_sep_tok (c : rtree) : Prop := ws_elem c = true \/ kind_is PIPE c = true.
+
+Lemma ws_prefix_split l : exists w rest, l = w ++ rest /\ length w = ws_prefix_len l /\
+  Forall (fun c => ws_elem c = true) w.
+Proof.
+  induction l as [|c r IH]; [now exists [], []|]. cbn [ws_prefix_len].
+  destruct (ws_elem c) eqn:E; [|now exists [], (c :: r)].
+  destruct IH as (w & rest & -> & L & F). exists (c :: w), rest. cbn. repeat split; auto.
+Qed.
+
+Lemma Forall_ws_sep l : Forall (fun c => ws_elem c = true) l -> Forall sep_tok l.
+Proof. apply Forall_impl. intros c H. now left. Qed.
+Lemma Forall_ws_alt l : Forall (fun c => ws_elem c = true) l -> Forall alt_sep_tok l.
+Proof. apply Forall_impl. intros c H. now left. Qed.
+
+(* Entry::remove deletes the entry, white space and at most one comma next to it: every other
+   child (other entries, substitution variables, their separators) stays, in order *)
+Lemma entry_remove_cs_frame v pre x post cs' :
+  entry_remove_cs v (pre ++ x :: post) (length pre) = Ok cs' ->
+  exists a g1 g2 b, pre = a ++ g1 /\ post = g2 ++ b /\ cs' = a ++ b /\ Forall sep_tok (g1 ++ g2).
+Proof.
+  unfold entry_remove_cs. rewrite firstn_app_len, skipn_S_app_len.
+  unfold entry_remove_scan_next.
+  destruct (ws_prefix_split post) as (w & rest & Epost & Lw & Fw). rewrite <- Lw.
+  rewrite Epost, skipn_app_len.
+  assert (Hnext : forall k rc, (match rest with
+                     | [] => Ok (length w, false)
+                     | c :: _ => if kind_is COMMA c then Ok (S (length w), true) else Panic 42
+                     end) = Ok (k, rc) ->
+            exists g2 b, w ++ rest = g2 ++ b /\ skipn k (w ++ rest) = b /\ Forall sep_tok g2).
+  { intros k rc H. destruct rest as [|c r].
+    - inversion H; subst. exists w, []. rewrite skipn_app_len. auto using Forall_ws_sep.
+    - destruct (kind_is COMMA c) eqn:Ec; [|discriminate]. inversion H; subst.
+      exists (w ++ [c]), r. rewrite <- app_assoc. split; [reflexivity|]. split.
+      + replace (S (length w)) with (length (w ++ [c])) by (rewrite app_length; cbn; lia).
+        replace (w ++ c :: r) with ((w ++ [c]) ++ r) by (now rewrite <- app_assoc). apply skipn_app_len.
+      + apply Forall_app. split; [now apply Forall_ws_sep|]. constructor; [now right|constructor]. }
+  destruct (match rest with
+            | [] => Ok (length w, false)
+            | c :: _ => if kind_is COMMA c then Ok (S (length w), true) else Panic 42
+            end) as [[k1 rc]| | |] eqn:Esc; try discriminate.
+  destruct (Hnext k1 rc eq_refl) as (g2 & b & E2 & Sk & F2).
+  destruct (negb (existsb _ pre)).
+  - intros [= <-]. rewrite Sk.
+    destruct (ws_prefix_split b) as (w' & rest' & Eb & Lw' & Fw'). rewrite <- Lw'. rewrite Eb, skipn_app_len.
+    exists pre, [], (g2 ++ w'), rest'. rewrite app_nil_r. repeat split.
+    + rewrite E2, Eb. now rewrite app_assoc.
+    + cbn [app]. apply Forall_app. auto using Forall_ws_sep.
+  - intros [= <-]. rewrite Sk.
+    set (k2 := entry_remove_scan_prev rc pre).
+    assert (Hk2 : k2 <= length pre) by apply entry_remove_scan_prev_le.
+    exists (firstn (length pre - k2) pre), (skipn (length pre - k2) pre), g2, b.
+    repeat split; auto using firstn_skipn.
+    apply Forall_app. split; [|exact F2].
+    (* the removed suffix of pre is white space, possibly preceded by a comma *)
+    unfold k2, entry_remove_scan_prev.
+    destruct (ws_prefix_split (rev pre)) as (wp & restp & Erev & Lwp & Fwp). rewrite <- Lwp.
+    rewrite Erev, skipn_app_len.
+    assert (Epre : pre = rev restp ++ rev wp) by (rewrite <- rev_app_distr, <- Erev; now rewrite rev_involutive).
+    assert (Lpre : length pre = length restp + length wp) by (rewrite Epre, app_length, !rev_length; lia).
+    destruct restp as [|c r].
+    + replace (length pre - length wp) with 0 by (cbn in Lpre; lia). cbn [skipn].
+      rewrite Epre. cbn [rev app]. apply Forall_ws_sep. now apply Forall_rev.
+    + destruct (negb rc && kind_is COMMA c) eqn:Ec.
+      * apply andb_prop in Ec. destruct Ec as [_ Ec].
+        replace (length pre - S (length wp)) with (length (rev r)) by (rewrite rev_length; cbn in Lpre; lia).
+        rewrite Epre. cbn [rev]. rewrite <- app_assoc. rewrite skipn_app_len. cbn [app].
+        constructor; [now right|]. apply Forall_ws_sep. now apply Forall_rev.
+      * replace (length pre - length wp) with (length (rev (c :: r))) by (rewrite rev_length; cbn in *; lia).
+        rewrite Epre. rewrite skipn_app_len. apply Forall_ws_sep. now apply Forall_rev.
+Qed.
+
+(* Relation::remove deletes the alternative, white space and at most one pipe next to it *)
+Lemma relation_remove_cs_frame pre x post cs' :
+  relation_remove_cs (pre ++ x :: post) (length pre) = Ok cs' ->
+  exists a g1 g2 b, pre = a ++ g1 /\ post = g2 ++ b /\ cs' = a ++ b /\ Forall alt_sep_tok (g1 ++ g2).
+Proof.
+  unfold relation_remove_cs. rewrite firstn_app_len, skipn_S_app_len.
+  destruct (negb (existsb is_relation pre)).
+  - unfold relation_remove_scan_next.
+    destruct (ws_prefix_split post) as (w & rest & Epost & Lw & Fw). rewrite <- Lw.
+    rewrite Epost, skipn_app_len. destruct rest as [|c r].
+    + intros [= <-]. exists pre, [], w, []. rewrite skipn_app_len, !app_nil_r.
+      repeat split; auto using Forall_ws_alt.
+    + destruct (kind_is PIPE c) eqn:Ec; [|discriminate]. intros [= <-].
+      destruct (ws_prefix_split r) as (w' & rest' & Er & Lw' & Fw'). rewrite <- Lw'.
+      exists pre, [], (w ++ c :: w'), rest'. rewrite app_nil_r. repeat split.
+      * rewrite Er. now rewrite <- app_assoc.
+      * f_equal. rewrite Er.
+        transitivity (skipn (length (w ++ c :: w')) ((w ++ c :: w') ++ rest')); [|apply skipn_app_len].
+        rewrite app_length. cbn [length]. rewrite <- app_assoc. cbn [app].
+        replace (length w + S (length w')) with (S (length w + length w')) by lia. reflexivity.
+      * cbn [app]. apply Forall_app. split; [now apply Forall_ws_alt|].
+        constructor; [now right|now apply Forall_ws_alt].
+  - intros [= <-]. set (k2 := relation_remove_scan_prev pre).
+    assert (Hk2 : k2 <= length pre) by apply relation_remove_scan_prev_le.
+    exists (firstn (length pre - k2) pre), (skipn (length pre - k2) pre), [], post.
+    rewrite app_nil_r. repeat split; auto using firstn_skipn.
+    unfold k2, relation_remove_scan_prev.
+    destruct (ws_prefix_split (rev pre)) as (wp & restp & Erev & Lwp & Fwp). rewrite <- Lwp.
+    rewrite Erev, skipn_app_len.
+    assert (Epre : pre = rev restp ++ rev wp) by (rewrite <- rev_app_distr, <- Erev; now rewrite rev_involutive).
+    assert (Lpre : length pre = length restp + length wp) by (rewrite Epre, app_length, !rev_length; lia).
+    destruct restp as [|c r].
+    + replace (length pre - length wp) with 0 by (cbn in Lpre; lia). cbn [skipn].
+      rewrite Epre. cbn [rev app]. apply Forall_ws_alt. now apply Forall_rev.
+    + destruct (kind_is PIPE c) eqn:Ec.
+      * destruct (ws_prefix_split r) as (w' & rest' & Er & Lw' & Fw'). rewrite <- Lw'.
+        assert (Epre' : pre = rev rest' ++ (rev w' ++ [c] ++ rev wp)).
+        { rewrite Epre. cbn [rev]. rewrite Er, rev_app_distr. now rewrite <- !app_assoc. }
+        replace (length pre - (S (length wp) + length w')) with (length (rev rest')).
+        2:{ rewrite rev_length. rewrite Lpre. cbn [length]. rewrite Er, app_length. lia. }
+        rewrite Epre' at 1. rewrite skipn_app_len.
+        apply Forall_app. split; [apply Forall_ws_alt; now apply Forall_rev|].
+        constructor; [now right|apply Forall_ws_alt; now apply Forall_rev].
+      * replace (length pre - length wp) with (length (rev (c :: r))) by (rewrite rev_length; cbn in *; lia).
+        rewrite Epre. rewrite skipn_app_len. apply Forall_ws_alt. now apply Forall_rev.
+Qed.
+
+Lemma sep_tok_comma : sep_tok t_comma. Proof. now right. Qed.
+Lemma sep_tok_space : sep_tok t_space. Proof. now left. Qed.
+Lemma alt_sep_tok_pipe : alt_sep_tok t_pipe. Proof. now right. Qed.
+Lemma alt_sep_tok_space : alt_sep_tok t_space. Proof. now left. Qed.
+Ltac sep_list := cbn [app]; repeat (apply Forall_cons; [auto using sep_tok_comma, sep_tok_space, alt_sep_tok_pipe, alt_sep_tok_space|]); apply Forall_nil.
+
+(* Relations::insert / push add the entry with separators only *)
+Lemma insert_plan_frame v cs idx eg :
+  let '(pos, new) := insert_plan v cs idx eg in
+  pos <= length cs /\ exists s1 s2, new = s1 ++ eg :: s2 /\ Forall sep_tok (s1 ++ s2).
+Proof.
+  unfold insert_plan. destruct (nth_index is_entry idx cs) as [ci|] eqn:E.
+  - split.
+    + clear -E. revert idx ci E. induction cs as [|c r IH]; intros idx ci E; cbn in *; [discriminate|].
+      destruct (is_entry c).
+      * destruct idx; [inversion E; lia|]. destruct (nth_index is_entry idx r) eqn:E'; [|discriminate].
+        cbn in E. inversion E; subst. specialize (IH _ _ E'). lia.
+      * destruct (nth_index is_entry idx r) eqn:E'; [|discriminate]. cbn in E. inversion E; subst.
+        specialize (IH _ _ E'). lia.
+    + destruct (negb (fx_insert_first v) && (idx =? 0) && negb (has_kind COMMA cs)).
+      * exists [], []. split; [reflexivity|sep_list].
+      * exists [], [t_comma; t_space]. split; [reflexivity|sep_list].
+  - split; [lia|]. destruct (fx_append_sep v).
+    + destruct (last_significant cs) as [[c|] n].
+      * destruct (kind_is COMMA c).
+        -- destruct n; [exists [t_space], []|exists [], []]; (split; [reflexivity|sep_list]).
+        -- exists [t_comma; t_space], []. split; [reflexivity|sep_list].
+      * exists [], []. split; [reflexivity|sep_list].
+    + destruct (idx =? 0).
+      * exists [], []. split; [reflexivity|sep_list].
+      * exists [t_comma; t_space], []. split; [reflexivity|sep_list].
+Qed.
+
+(* Entry::push adds the alternative with separators only *)
+Lemma entry_push_plan_frame cs rg :
+  let '(pos, new) := entry_push_plan cs rg in
+  exists s1, new = s1 ++ [rg] /\ Forall alt_sep_tok s1.
+Proof.
+  unfold entry_push_plan. destruct (last_index is_relation cs);
+    destruct (negb (existsb (fun c => kind_is PIPE c || kind_is RELATION c) cs)).
+  - exists []. split; [reflexivity|sep_list].
+  - exists [t_space; t_pipe; t_space]. split; [reflexivity|sep_list].
+  - exists []. split; [reflexivity|sep_list].
+  - exists [t_pipe; t_space]. split; [reflexivity|sep_list].
+Qed.
+
+(* the entries of a field after an insert: the list insert, whatever the layout around them *)
+Lemma filter_insert_at_nth_index {A} (p : A -> bool) idx cs ci x s2 :
+  nth_index p idx cs = Some ci -> p x = true -> forallb (fun c => negb (p c)) s2 = true ->
+  filter p (insert_at ci (x :: s2) cs) = l_insert idx x (filter p cs).
+Proof.
+  revert idx ci; induction cs as [|c r IH]; intros idx ci E Hx Hs; cbn in E; [discriminate|].
+  assert (Hf2 : filter p s2 = []).
+  { clear -Hs. induction s2 as [|y s IH]; [reflexivity|]. cbn in *. apply andb_prop in Hs. destruct Hs as [H1 H2].
+    destruct (p y); [discriminate|]. now apply IH. }
+  destruct (p c) eqn:Pc.
+  - destruct idx as [|idx].
+    + inversion E; subst ci. rewrite insert_at_0. cbn [app filter]. rewrite Hx, filter_app, Hf2. cbn [app filter].
+      rewrite Pc. reflexivity.
+    + destruct (nth_index p idx r) as [j|] eqn:E'; [|discriminate]. cbn in E. inversion E; subst ci.
+      rewrite insert_at_S. cbn [filter]. rewrite Pc. rewrite (IH _ _ E' Hx Hs). reflexivity.
+  - destruct (nth_index p idx r) as [j|] eqn:E'; [|discriminate]. cbn in E. inversion E; subst ci.
+    rewrite insert_at_S. cbn [filter]. rewrite Pc. now rewrite (IH _ _ E' Hx Hs).
+Qed.
+Lemma nth_index_none_length {A} (p : A -> bool) idx cs :
+  nth_index p idx cs = None -> length (filter p cs) <= idx.
+Proof.
+  revert idx; induction cs as [|c r IH]; intros idx E; cbn in *; [lia|].
+  destruct (p c).
+  - destruct idx; [discriminate|]. destruct (nth_index p idx r) eqn:E'; [discriminate|].
+    specialize (IH _ E'). cbn. lia.
+  - destruct (nth_index p idx r) eqn:E'; [discriminate|]. now apply IH.
+Qed.
+
+Lemma entries_insert_green v t idx eg : is_entry eg = true ->
+  entries (relations_insert_green v t idx eg) = l_insert idx eg (entries t).
+Proof.
+  intros He. unfold relations_insert_green, entries.
+  destruct (insert_plan v (children t) idx eg) as [pos new] eqn:EP. cbn [children set_children].
+  unfold insert_plan in EP. destruct (nth_index is_entry idx (children t)) as [ci|] eqn:E.
+  - assert (exists s2, new = eg :: s2 /\ forallb (fun c => negb (is_entry c)) s2 = true) as (s2 & -> & Hs2).
+    { destruct (negb (fx_insert_first v) && (idx =? 0) && negb (has_kind COMMA (children t)));
+        inversion EP; subst; [now exists []|now exists [t_comma; t_space]]. }
+    inversion EP; subst pos. destruct (negb (fx_insert_first v) && (idx =? 0) && negb (has_kind COMMA (children t)));
+      now apply filter_insert_at_nth_index.
+  - pose proof (nth_index_none_length _ _ _ E) as Hl.
+    assert (pos = length (children t) /\ filter is_entry new = [eg]) as [-> Hn].
+    { destruct (fx_append_sep v).
+      - destruct (last_significant (children t)) as [[c|] n].
+        + destruct (kind_is COMMA c); [destruct n|]; inversion EP; subst; cbn [filter];
+            change (is_entry t_comma) with false; change (is_entry t_space) with false; rewrite He; auto.
+        + inversion EP; subst. cbn [filter]. rewrite He. auto.
+      - destruct (idx =? 0); inversion EP; subst; cbn [filter];
+          change (is_entry t_comma) with false; change (is_entry t_space) with false; rewrite He; auto. }
+    rewrite insert_at_end by lia. rewrite filter_app, Hn. unfold l_insert.
+    rewrite firstn_all2 by exact Hl. rewrite skipn_all2 by exact Hl. reflexivity.
+Qed.
